@@ -66,8 +66,8 @@ def serializeWith (typ len sid : Nat) (body : Out Bytes) : Out Bytes :=
 /-- `create::Msg::get_bytes`: 64-byte block, name copied into its prefix (F5). -/
 def createNameBlock (alg : Option Bytes) : Out Bytes :=
   match alg with
-  | none => .ok (List.replicate 64 0)
-  | some c => if c.length > 63 then .err else .ok (c ++ List.replicate (64 - c.length) 0)
+  | none => .ok (zeros 64)
+  | some c => if c.length > 63 then .err else .ok (c ++ zeros (64 - c.length))
 
 def serializeCreate (m : Create) : Out Bytes :=
   serializeWith CREATE (8 + 6 * 4 + 64) m.sid do
